@@ -12,6 +12,7 @@ mod fam_history;
 mod fam_list;
 mod fam_round;
 mod fam_split;
+mod fam_tree;
 mod gen;
 mod refdec;
 mod toy;
@@ -62,6 +63,7 @@ fn main() {
         "list" => fam_list::list(&mut ctx),
         "roundtrip" => fam_round::roundtrip(&mut ctx),
         "split" => fam_split::split(&mut ctx),
+        "cli-tree" => fam_tree::cli_tree(&mut ctx),
         f => {
             eprintln!("unknown family {f}");
             std::process::exit(2);
